@@ -16,6 +16,46 @@ prop("C19",
      "Generated Schema trees (hostile property names, PropertyOrder as permutation/subset/superset/absent/duplicate lists, nested to depth 3) are marshalled 12 times; the key sequence of every 'properties' object is read back with a token walk and compared with an explicit model ([n in order | n in props] ++ sorted rest); duplicates must give an error. The sub-space 'orders of length<=4 over {A,B,C,Z} x subsets of {A,B,C}' is enumerated completely in every run. Exploration level: it shows the property on everything generated, not for all inputs.",
      "Trusted: encoding/json's Decoder for reading the output back; Go string order as the meaning of 'ascending'. Map-iteration randomness is sampled (Go re-randomises per range), not enumerated.")
 
+
+MODEL_NOTE = "Trusted: the harness's reference evaluator (refmodel: own indexer, RFC 3986/6901 code, explicit annotation sets), itself pinned at every run to all 2,012 official JSON-Schema-Test-Suite verdicts shipped in /repo (mismatch => exit 2, never a verdict); Go regexp on both sides (documented deviation); encoding/json."
+
+prop("C01",
+     "property-based testing (rapid): grammar-generated 2020-12 schema documents x instances, differential against an independent reference evaluator",
+     "Grammar-based generation of whole 2020-12 schema documents (every assertion and applicator keyword, boolean schemas at every position, $defs/$anchor/$ref, unevaluated*, lenses for numeric/string/array/object/logic/reference interactions) with operands and instance leaves drawn from the same small boundary pools; each schema meets 4 instances (schema-directed satisfier + single-point mutations, free draws). The library verdict (Unmarshal, Resolve, Validate) must equal the verdict of the reference evaluator. Exploration: tens of thousands of distinct keyword combinations per quick run, millions in thorough; no claim beyond what was generated.",
+     MODEL_NOTE + " multipleOf is stripped when an instance holds |n| >= 2^50 (the property's own exactness restriction).")
+prop("C02",
+     "property-based testing (rapid): draft-07 documents and Loader universes vs. the reference evaluator in draft-07 mode; metamorphic $schema configurations",
+     "Three generated families: draft-07 documents (definitions, both dependency forms, both items forms + additionalItems, #name $id anchors, $ref with siblings and with $id beside it) against the draft-07 reference evaluator; draft-07 roots with 1-2 Loader documents (with/without own $schema) referenced from the root and from subschemas; and one schema under every $schema configuration (absent, 2020-12, both draft-07 spellings, unsupported values which must be refused for every instance). The run reports how often the two drafts' evaluators disagree on the instance (cases that can tell the drafts apart).",
+     MODEL_NOTE + " Unsupported $schema values are chosen far from the supported spellings.")
+prop("C05",
+     "property-based testing (rapid): round-trip and metamorphic oracles over reflection-generated Schema structs and grammar-generated documents",
+     "Schema struct values populated field by field through reflection (nil / empty non-nil / pointer-to-nil / nested) under the documented exclusivity rules are marshaled, unmarshaled and marshaled again: bytes (or JSON value when PropertyOrder is set) must agree, Resolve must behave alike and verdict vectors on generated instances must be identical. Schema documents of both drafts (plus unknown keywords) must re-marshal to themselves up to the documented normalisations (implemented explicitly in the harness) and keep their verdicts, which are also compared with the reference evaluator.",
+     MODEL_NOTE + " Numbers are compared after float64 rounding (encoding/json re-spells floats).")
+prop("C07",
+     "property-based testing (rapid) with exhaustive instance enumeration per schema, differential against the reference evaluator's explicit evaluated sets",
+     "A focused generator builds trees of in-place applicators (allOf/anyOf/oneOf/if-then-else/dependentSchemas/$ref/$dynamicRef/not, depth<=4) over properties/patternProperties/additionalProperties resp. prefixItems/items/contains leaves with failing branches, cousins and nested unevaluated*; every schema is evaluated against ALL 16 objects over four names resp. ALL 31 arrays of length<=4 over two item values. Non-triviality is semantic: the run counts the cases whose verdict changes under a deliberately wrong evaluator that ignores in-place annotations or leaks annotations of failed/not subschemas.",
+     MODEL_NOTE)
+prop("C08",
+     "property-based testing (rapid): differential across Go representations of one JSON value (reflection-built), canonical decoding as reference",
+     "For generated (schema, JSON value) pairs the value is re-typed five times by a representation expander (numeric kind per leaf incl. json.Number and named types, []any/[]T/[N]T/named slices, map[string]any/map[K]T with named key types, 0-2 pointers, interfaces, nil pointers for null); every representation must get the verdict of json.Unmarshal-into-any of the same document, and must not panic. The expander self-checks each value by json.Marshal.",
+     "Trusted: encoding/json as the definition of 'the same document'; nil slices/maps and structs are outside the domain; float32 only where its spelling is exact; byte slices excluded.")
+prop("C11",
+     "property-based testing (rapid): Equal vs. the harness's canonical JSON equality over mixed Go representations; algebraic laws",
+     "Pairs and triples of JSON values (equivalent respelled/permuted copies, single-point mutations incl. last-bit and beyond-2^53 integers and NFC/NFD strings, independent draws), each side independently re-typed, are compared with Equal; the expected answer is exact rational/code-point/unordered-object equality computed on the harness's own value trees. Reflexivity, symmetry and transitivity are checked directly. A list of hand-written corner cases runs first.",
+     "Trusted: the harness's value model (math/big rationals). Representations are those of C08.")
+prop("C12",
+     "property-based testing (rapid): definitional oracle (canonical equality and the library's Equal), repeated calls, hash law through a test hook",
+     "enum/const/uniqueItems schemas (from documents and as structs holding mixed representations) meet instances with planted equal-but-not-identical duplicates and near-duplicates at random positions; the verdict must match the definition computed twice (harness equality; library Equal), be identical over 5 calls (fresh maphash seed each), and Equal(x,y) must imply equal hashes under 3 seeds (hook VerifHash).",
+     "Trusted: C11 ties Equal to JSON equality. maphash seeds cannot be chosen by the harness (sampled, not enumerated).")
+prop("C15",
+     "property-based testing (rapid): algebraic laws of ApplyDefaults (no re-implementation) + ValidateDefaults vs. the reference evaluator",
+     "Schemas with defaults at any depth of properties (all JSON types, incomplete object defaults, required/default conflicts, defaults on object and non-object subschemas) x instances (any subset of properties, non-objects anywhere). Checked: idempotence, before is-contained-in after, no required key filled, every added key declared and justified by a default or a non-empty container, documented completeness; Resolve(ValidateDefaults) errs exactly when the reference evaluator rejects some default against its declaring subschema.",
+     MODEL_NOTE + " Schemas are reference-free (documented limitation of ApplyDefaults/ValidateDefaults).")
+prop("C18",
+     "property-based testing (rapid): metamorphic relation (decorate a schema, verdicts must not change)",
+     "Generated schemas of both drafts are decorated at 1-4 random subschemas with documented non-asserting keywords (well-typed values) or unknown names (letter-case variants of every standard keyword, Go field names, random identifiers) carrying arbitrary JSON; Unmarshal and Resolve must accept and every instance must keep its verdict.",
+     "The undecorated library verdict is the reference (C01/C02 tie it to the specification).")
+
 def main():
     hooks_commit = subprocess.run(["git", "-C", "/repo", "log", "--format=%H", "-1", "--", "jsonschema/export_verif.go"],
                                   capture_output=True, text=True).stdout.strip()
